@@ -56,8 +56,67 @@ Proof.
   destruct (match cast_generic gen with Some n => unify_type σ n inst | None => (gen, σ) end) as [gen1 σ1].
   destruct (match cast_struct gen1 with Some ps => sinfo st ps | None => None end) as [[g pargs]|]; [|cbn; discriminate].
   destruct (match cast_struct inst with Some s => sinfo st s | None => None end) as [[g' aargs]|]; [|cbn; discriminate].
+  destruct (negb (g' =? g)); [cbn; discriminate|].
   destruct (unify_targs pargs aargs σ1) as [[| |targs] σ2]; try (cbn; discriminate).
   destruct (get_inst arity st g targs) as [[s|] st']; cbn; discriminate.
+Qed.
+
+(* ---- unification never panics (since /repo 36809d8) --------------------------------------------------- *)
+(* every recorded instantiation has as many type arguments as its generic Kombination has parameters *)
+Definition inv_len (arity : N -> nat) (st : gstate) : Prop :=
+  forall e, In e (insts st) -> length (snd (fst e)) = arity (fst (fst e)).
+
+Lemma inv_len_gstate0 arity k : inv_len arity (gstate0 k).
+Proof. intros e H; cbn in H; contradiction. Qed.
+
+Lemma get_inst_inv_len arity st g args o st' :
+  inv_len arity st -> get_inst arity st g args = (o, st') -> inv_len arity st'.
+Proof.
+  intros Hl. unfold get_inst. destruct (find_inst (insts st) g args); [intros H; inversion H; subst; exact Hl|].
+  destruct (Nat.eqb (length args) (arity g)) eqn:E; cbn [negb]; intros H; inversion H; subst; clear H; [|exact Hl].
+  intros e He. cbn [insts] in He. apply in_app_or in He. destruct He as [He|[He|[]]]; [apply Hl; exact He|].
+  subst e. cbn. apply PeanoNat.Nat.eqb_eq. exact E.
+Qed.
+
+Lemma sinfo_in st s g a : sinfo st s = Some (g, a) -> exists e, In e (insts st) /\ fst (fst e) = g /\ snd (fst e) = a.
+Proof.
+  unfold sinfo. destruct (find (fun e : inst_entry => snd e =? s) (insts st)) as [e|] eqn:F; intros H; [|discriminate H].
+  apply find_some in F. destruct F as [Hi _]. inversion H as [H1]. exists e. rewrite H1. cbn. auto.
+Qed.
+
+Lemma unify_targs_no_panic pargs : forall aargs σ, (length pargs <= length aargs)%nat -> fst (unify_targs pargs aargs σ) <> TPanic.
+Proof.
+  induction pargs as [|pp ps IH]; intros aargs σ Hl; cbn [unify_targs]; [cbn; discriminate|].
+  destruct aargs as [|aa as']; [cbn in Hl; lia|].
+  destruct (match cast_generic pp with Some n => unify_type σ n aa | None => (pp, σ) end) as [pp' σ1].
+  destruct (negb (equal pp' aa)); [cbn; discriminate|].
+  specialize (IH as' σ1). destruct (unify_targs ps as' σ1) as [[| |l] σ2]; cbn in *; try discriminate.
+  apply IH. lia.
+Qed.
+
+Theorem unify_total arity st arg param σ :
+  inv_len arity st ->
+  fst (fst (unify arity st arg param σ)) <> UPanic /\ fst (fst (unify arity st arg param σ)) <> UFuel /\
+  inv_len arity (snd (unify arity st arg param σ)).
+Proof.
+  intros Hl. split; [|split; [apply unify_never_out_of_fuel|]]; unfold unify;
+  destruct (peel (size param) arg param 0) as [[[[[inst gen] depth] ia] ip]|]; try (cbn; first [discriminate| exact Hl]);
+  (destruct (ip && negb ia); [cbn; first [discriminate| exact Hl]|]);
+  destruct (match cast_generic gen with Some n => unify_type σ n inst | None => (gen, σ) end) as [gen1 σ1];
+  (destruct (match cast_struct gen1 with Some ps => sinfo st ps | None => None end) as [[g pargs]|] eqn:PI; [|cbn; first [discriminate| exact Hl]]);
+  (destruct (match cast_struct inst with Some s => sinfo st s | None => None end) as [[g' aargs]|] eqn:AI; [|cbn; first [discriminate| exact Hl]]);
+  (destruct (g' =? g) eqn:G; cbn [negb]; [|cbn; first [discriminate| exact Hl]]).
+  - apply N.eqb_eq in G. subst g'.
+    assert (Hlen : length pargs = length aargs).
+    { destruct (cast_struct gen1) as [ps|]; [|discriminate PI]. destruct (cast_struct inst) as [s|]; [|discriminate AI].
+      apply sinfo_in in PI. apply sinfo_in in AI. destruct PI as [e1 [I1 [G1 A1]]], AI as [e2 [I2 [G2 A2]]].
+      rewrite <- A1, <- A2, (Hl e1 I1), (Hl e2 I2), G1, G2. reflexivity. }
+    pose proof (unify_targs_no_panic pargs aargs σ1) as NP.
+    destruct (unify_targs pargs aargs σ1) as [[| |targs] σ2]; cbn in NP; try (cbn; discriminate).
+    + exfalso. apply NP; [lia| reflexivity].
+    + destruct (get_inst arity st g targs) as [[s|] st']; cbn; discriminate.
+  - destruct (unify_targs pargs aargs σ1) as [[| |targs] σ2]; try (cbn; exact Hl).
+    destruct (get_inst arity st g targs) as [[s|] st'] eqn:GI; cbn; eapply get_inst_inv_len; eassumption.
 Qed.
 
 (* ---- the instantiation cache is canonical ------------------------------------------------------------ *)
@@ -380,17 +439,18 @@ Example unify_conflict_example :
   fst (fst (check_args (fun _ => 0%nat) (gstate0 100) [List (Prim PZahl); Alias 7 (Prim PZahl)] [List (TParam 1); TParam 1] [])) = true.
 Proof. vm_compute. split; reflexivity. Qed.
 
-(* the index-out-of-range panic of UnifyGenericType: the parameter is an instantiation of a generic
-   Kombination with two type parameters, the argument one of a generic Kombination with one *)
-Example unify_panics :
+(* the former index-out-of-range panic of UnifyGenericType (repaired by /repo 36809d8): the parameter is an
+   instantiation of a generic Kombination with two type parameters, the argument one of a generic
+   Kombination with one — now simply "does not unify" *)
+Example unify_other_generic_is_nil :
   let ar := fun g : N => if g =? 1 then 2%nat else 1%nat in
   let st1 := snd (get_inst ar (gstate0 100) 1 [TParam 7; TParam 8]) in      (* T-R-Zwei   = Struct 100 *)
   let st2 := snd (get_inst ar st1 2 [Prim PZahl]) in                        (* Zahl-Eins  = Struct 101 *)
-  fst (fst (unify ar st2 (Struct 101) (Struct 100) [])) = UPanic.
+  fst (fst (unify ar st2 (Struct 101) (Struct 100) [])) = UNil.
 Proof. vm_compute. reflexivity. Qed.
 
 Print Assumptions inst_canonical.
 Print Assumptions unify_sound.
 Print Assumptions check_args_sound.
 Print Assumptions unify_conflict.
-Print Assumptions unify_never_out_of_fuel.
+Print Assumptions unify_total.
